@@ -16,8 +16,21 @@ def fill(claim, na):
           'schedules is not decided.',
           'trusts CPython ast, the hand-built CFG (sa/cfg.py), documented semantics of '
           'queue.Queue/threading.Event; name-based resolution of self.<attr> calls', 'C20')
+    claim('C14', 'MRO-resolved call-closure counting of accumulator stores per engine class + '
+          'exact symbolic (polynomial) Suzuki-Trotter sums + time-argument table agreement + '
+          'result-flow (R-ERRFLOW) over algorithm.py/tebd.py/tdvp.py/mpo_evolution.py',
+          PARTIAL + 'For every concrete TimeEvolutionAlgorithm subclass exactly one function on '
+          'the resolved run_evolution->evolve path adds the step errors to trunc_err and exactly '
+          'one advances evolved_time by N_steps*step outside loops; the Suzuki-Trotter schedule x '
+          'coefficient tables sum to N_steps for every order and bond family (exhaustive, exact); '
+          'TEBD gate exponent = -i*tau*H, ExpMPO make_U arguments sum to -i*dt, TDVP '
+          'forward/backward half steps cancel and the doubled site is the one visited once; every '
+          'truncation error produced reaches the returned sum. Convergence order and '
+          'norm/energy/charge conservation are not decided.',
+          'trusts python ast, statically computed C3 MRO, sa/linform.py exact polynomial '
+          'arithmetic; name-based producer table for error-returning calls', 'C14')
     for pid in ['C01', 'C02', 'C03', 'C04', 'C05', 'C06', 'C07', 'C09', 'C10', 'C11', 'C12',
-                'C13', 'C14', 'C15', 'C16', 'C17', 'C18', 'C19']:
+                'C13', 'C15', 'C16', 'C17', 'C18', 'C19']:
         na(pid, 'static rule planned in DESIGN.md but not built yet (work in progress); not '
            'claimed until its check exists')
     na('C08', 'every clause quantifies over numerical values (expectation values, overlaps, Born '
